@@ -318,3 +318,26 @@ Example C13_nonvacuous_unary_header_on_error :
   wf sc = true /\ no_known sc = true /\
   fst (wrap_run fx_now sc) = [CEnd (OErr 2 3); CHdr [(0, 1)]; CTrl [(1, 2)]].
 Proof. repeat split; reflexivity. Qed.
+
+(* Print Assumptions for every theorem above that did not have its own line yet *)
+Print Assumptions C13_alias_variant_refuted.
+Print Assumptions C13_metadata_alias_variant_refuted.
+Print Assumptions C13_send_leaves_sender_object.
+Print Assumptions C13_copy_on_receive_v0_refuted.
+Print Assumptions C13_model_repairs_match_source.
+Print Assumptions C13_method_table_is_service_desc.
+Print Assumptions C13_incoming_metadata_cloned.
+Print Assumptions C13_unwrap_fully_is_plain.
+Print Assumptions C13_unwrap_fully_idempotent.
+Print Assumptions C13_grpc_assumptions_general.
+Print Assumptions C13_header_on_return_v0_refuted.
+Print Assumptions C13_late_set_header_v0_refuted.
+Print Assumptions C13_context_error_v0_refuted.
+Print Assumptions C13_send_after_cancel_v0_refuted.
+Print Assumptions C13_wrapper_equals_grpc_v0_refuted.
+Print Assumptions C13_trailer_after_cancel_refuted.
+Print Assumptions C13_response_then_error_refuted.
+Print Assumptions C13_header_after_context_end_v0_refuted.
+Print Assumptions C13_header_after_context_end_equal.
+Print Assumptions C13_client_misuse_equal.
+Print Assumptions C13_client_misuse_v0_refuted.
